@@ -37,6 +37,16 @@ inductive Base where
 
 def Base.all : List Base := [.string, .int, .float, .bool, .path, .file, .map]
 
+/-- the MRO keyword (`BuiltinType.Id`) -/
+def Base.name : Base → Bytes
+  | .string => [0x73, 0x74, 0x72, 0x69, 0x6E, 0x67]
+  | .int => [0x69, 0x6E, 0x74]
+  | .float => [0x66, 0x6C, 0x6F, 0x61, 0x74]
+  | .bool => [0x62, 0x6F, 0x6F, 0x6C]
+  | .path => [0x70, 0x61, 0x74, 0x68]
+  | .file => [0x66, 0x69, 0x6C, 0x65]
+  | .map => [0x6D, 0x61, 0x70]
+
 mutual
   inductive Ty where
     | base (b : Base)
@@ -104,6 +114,10 @@ end
 inductive FileKind where
   | notFile | mayContainPaths | file | directory
   deriving DecidableEq, Repr, Inhabited
+
+/-- numeric value of Go's `FileKind` constants -/
+def FileKind.rank : FileKind → Nat
+  | .notFile => 0 | .mayContainPaths => 1 | .file => 2 | .directory => 3
 
 /-- accumulation rule of `StructMember.compile`: the struct's kind after
 seeing a member of kind `m` -/
